@@ -52,6 +52,12 @@ class List(Expression):
         staging = out.var('staging', [])
 
         with out.WHILE(True):
+            # Stop at the upper bound. Check before each element, not just
+            # after it: a data-dependent bound can be zero.
+            if self.max_len is not None:
+                with out.IF(LEN(staging) >= Code(self.max_len)):
+                    out += BREAK
+
             if self.expr.can_partially_succeed():
                 checkpoint = out.var('checkpoint', POS)
 
@@ -61,10 +67,6 @@ class List(Expression):
                 out += BREAK
 
             out += staging.append(RESULT)
-
-            if self.max_len is not None:
-                with out.IF(LEN(staging) == Code(self.max_len)):
-                    out += BREAK
 
         if not self.min_len or self.min_len == '0':
             out += RESULT << staging
